@@ -45,6 +45,8 @@ var foldPairs = [][2]string{{"nick", "NICK"}, {"nick[away]", "NICK{AWAY}"}, {"a\
 
 func runC15Lookups(c *Ctx) {
 	r := c.R
+	c.run("idreconnect", map[string]string{"scenario": "three connections of one client, renamed by 001 and by NICK"})
+	r.Traces++
 	for _, p := range foldPairs {
 		for _, idh := range [][4]string{{"u", "u", "h", "h"}, {"u", "U", "h", "h"}, {"u", "u", "h", "H"}, {"", "", "", ""}} {
 			c.run("srceq", map[string]string{"a": p[0], "b": p[1], "ia": idh[0], "ib": idh[1], "ha": idh[2], "hb": idh[3]})
@@ -93,9 +95,29 @@ func lookupsOp(c *girc.Client, res *SessResult) {
 			res.Snap = append(res.Snap, fmt.Sprintf("%s: %v vs %v", what, a, b))
 		}
 	}
+	flip1 := func(b byte) byte {
+		switch {
+		case b >= 'a' && b <= 'z', b == '{' || b == '|' || b == '}' || b == '~':
+			return b - 32
+		case b >= 'A' && b <= 'Z', b == '[' || b == '\\' || b == ']' || b == '^':
+			return b + 32
+		}
+		return b
+	}
 	spell := func(s string) []string {
 		out := []string{s}
-		for i := 0; i < 6; i++ {
+		// every spelling that differs in exactly ONE foldable byte, the one that differs in all of them, and a few random ones
+		all := []byte(s)
+		for i := 0; i < len(s); i++ {
+			if f := flip1(s[i]); f != s[i] {
+				one := []byte(s)
+				one[i] = f
+				out = append(out, string(one))
+				all[i] = f
+			}
+		}
+		out = append(out, string(all))
+		for i := 0; i < 4; i++ {
 			out = append(out, variant2(rng, s))
 		}
 		return out
